@@ -118,6 +118,12 @@ fn c07(rng: &mut Rng, idx: usize) -> Case {
     let max_terms = *rng.pick(&[3usize, 6, 12, 25]);
     let (mut f, shape) = gen_facts(rng, &DagOpts { max_terms, with_roots: true, max_recs: 5 });
     c.stat(&format!("shape_{shape:?}"), 1);
+    if idx % 30 == 17 {
+        // an is_a chain of depth 40..110, terms supplied in a random order
+        let n = rng.range(40, 110) as usize;
+        f = gen_deep_chain_rooted(rng, n);
+        c.stat("deep_chains", 1);
+    }
     // maximal record ids, records without terms, empty sections
     for k in 0..3 {
         if rng.chance(1, 6) && !f.recs[k].iter().any(|r| r.0 == u32::MAX) {
@@ -336,6 +342,16 @@ fn c08(rng: &mut Rng, tier: &str, idx: usize) -> Case {
         f = gen_fan(rng, width);
         c.stat("fan_files", 1);
     }
+    let mut deep = false;
+    if idx % 40 == 31 && !noroots {
+        // an is_a chain of depth 40..110 (beyond any shipped ontology); the term records leaf first
+        // in the first file, shuffled in the second: recursion depth of the ancestor caches
+        let n = rng.range(40, 110) as usize;
+        f = gen_deep_chain_rooted(rng, n);
+        f.terms.reverse();
+        deep = true;
+        c.stat("deep_chain_files", 1);
+    }
     if rng.chance(1, 8) {
         // a name of exactly 255 / 254 bytes, multi-byte at the end
         let i = rng.below(f.terms.len() as u64) as usize;
@@ -363,7 +379,7 @@ fn c08(rng: &mut Rng, tier: &str, idx: usize) -> Case {
     c.stat("obsolete_or_replaced_terms", flags.len() as u64);
     // order A
     let mut tmp = Case::new("");
-    facts_to_fops(rng, &f, &flags, fv, 2, true, &mut tmp);
+    facts_to_fops(rng, &f, &flags, fv, 2, !deep, &mut tmp);
     let fload = tmp.ops.pop().unwrap_or_default();
     let bytes = encode(&facts_of_ops(&tmp.ops), fv);
     for op in &tmp.ops {
@@ -385,7 +401,7 @@ fn c08(rng: &mut Rng, tier: &str, idx: usize) -> Case {
         c.stat("files_with_permuted_records", 1);
     }
     // damage: every truncation offset, suffixes of 1-8 bytes, all 256 version bytes
-    if bytes.len() > 6000 {
+    if bytes.len() > 6000 || (deep && bytes.len() > 400) {
         // a large (fan) file: the truncation offsets at both ends and three windows inside
         let n = bytes.len();
         c.op(format!("cuts {} 0 48", hex(&bytes)));
